@@ -217,15 +217,16 @@ class AsyncDatagramServer(_transports.AsyncBaseTransport, Generic[_T_Request, _T
         default_context: contextvars.Context,
     ) -> None:
         client_data.mark_running()
-        restart_if_queue_not_empty: bool = True
+        task_group_may_be_closed: bool = False
         try:
             await self.__client_coroutine_inner_loop(
                 request_handler_generator=datagram_received_cb(client_ctx),
                 client_data=client_data,
             )
         except client_data.backend.get_cancelled_exc_class():
-            # The task group is shutting down (server tear-down): it would refuse a new task.
-            restart_if_queue_not_empty = False
+            # Either the request handler let a cancellation of its own escape (the server is still running),
+            # or the task group is shutting down (server tear-down) and refuses new tasks.
+            task_group_may_be_closed = True
             raise
         finally:
             self.__on_client_coroutine_task_done(
@@ -234,7 +235,7 @@ class AsyncDatagramServer(_transports.AsyncBaseTransport, Generic[_T_Request, _T
                 client_data=client_data,
                 task_group=task_group,
                 default_context=default_context,
-                restart_if_queue_not_empty=restart_if_queue_not_empty,
+                task_group_may_be_closed=task_group_may_be_closed,
             )
 
     async def __client_coroutine_inner_loop(
@@ -290,10 +291,10 @@ class AsyncDatagramServer(_transports.AsyncBaseTransport, Generic[_T_Request, _T
         client_data: _ClientData,
         task_group: TaskGroup,
         default_context: contextvars.Context,
-        restart_if_queue_not_empty: bool = True,
+        task_group_may_be_closed: bool = False,
     ) -> None:
         client_data.mark_done()
-        if client_data.queue_is_empty() or not restart_if_queue_not_empty:
+        if client_data.queue_is_empty():
             return
 
         client_data.mark_pending()
@@ -308,15 +309,21 @@ class AsyncDatagramServer(_transports.AsyncBaseTransport, Generic[_T_Request, _T
         # To avoid that, we always use a new context. The performance cost is negligible.
         # See this functional test for a real situation:
         # test____serve_forever____too_many_datagrams_while_request_handle_is_performed
-        default_context.copy().run(
-            task_group.start_soon,
-            self.__client_coroutine,
-            datagram_received_cb,
-            client_ctx,
-            client_data,
-            task_group,
-            default_context,
-        )
+        try:
+            default_context.copy().run(
+                task_group.start_soon,
+                self.__client_coroutine,
+                datagram_received_cb,
+                client_ctx,
+                client_data,
+                task_group,
+                default_context,
+            )
+        except RuntimeError:
+            if not task_group_may_be_closed:
+                raise
+            # Server tear-down: the task group does not accept new tasks anymore.
+            # (client_data is dropped with the serve() call which created it.)
 
     @staticmethod
     def __parse_datagram(
